@@ -22,7 +22,7 @@ TraceInit == /\ tid \in 1..Len(Traces)
 
 JudgeFrom == IF "from" \in DOMAIN T THEN T.from ELSE 1
 
-TraceRow == /\ T.out = "ok" /\ i < N
+TraceRow == /\ T.out = "ok" /\ i < N /\ Len(T.res) = N /\ (IF "hi" \in DOMAIN T THEN Len(T.hi) = N ELSE TRUE)
             /\ RowEma(T.keys[i + 1], T.vals[i + 1], T.sel[i + 1] = 1, T.times[i + 1])
             /\ i' = i + 1
             /\ (Diag \/ LET r == i + 1 IN
